@@ -180,8 +180,8 @@ static POLL_START_MS: AtomicU64 = AtomicU64::new(0);
 static WORLD_START_MS: AtomicU64 = AtomicU64::new(0);
 
 fn wall_ms() -> u64 {
-    static T0: std::sync::OnceLock<std::time::Instant> = std::sync::OnceLock::new();
-    T0.get_or_init(std::time::Instant::now).elapsed().as_millis() as u64 + 1
+    // the kernel's monotonic clock, not the simulated reading `std::time::Instant` gives on a simulation thread
+    crate::clock::real_ms() + 1
 }
 
 /// Start the watchdog thread; `report(kind, seconds)` is called once, from the watchdog thread, and must not return.
@@ -220,6 +220,8 @@ where
     for (i, b) in seed_bytes.iter_mut().enumerate() {
         *b = (seed.rotate_left((i as u32 * 7) % 64) as u8) ^ (i as u8).wrapping_mul(31);
     }
+    crate::clock::begin();
+    world::set_clock_sink(crate::clock::set_elapsed);
     let rt = Builder::new_current_thread()
         .enable_time()
         .start_paused(true)
@@ -239,6 +241,10 @@ where
             TASKS.with(|t| {
                 let mut t = t.borrow_mut();
                 POLL_START_MS.store(wall_ms(), Ordering::Relaxed);
+                // the paused clock only moves between polls: this is the reading `std::time::Instant` gives during the poll
+                if let Some(ns) = world::try_with(|w| w.now_ns()) {
+                    crate::clock::set_elapsed(ns);
+                }
                 if let Some(&(ord, node)) = t.nodes.get(&meta.id()) {
                     world::set_current_node(node);
                     t.polls += 1;
@@ -276,6 +282,7 @@ where
         (r, sim_ns)
     });
     drop(rt);
+    crate::clock::end();
     WORLD_START_MS.store(0, Ordering::Relaxed);
     POLL_START_MS.store(0, Ordering::Relaxed);
     let world = world::uninstall().expect("world");
